@@ -29,18 +29,25 @@ def run(ctx):
         return ctx.finish("other", "anchor missing", [], "")
     A = an.of(F, pss[0])
     ex = CH.exits(A)
-    ok = len(ex) == 2
+    ok = len(ex) == 3
     nul_ok = utf_ok = False
     if ok:
-        e1, e2 = ex
-        v1 = N(e1.val)
-        fb = ("call", "core::ffi::c_str::CStr::from_bytes_until_nul", (arg(1),))
-        if v1[0] == "try_err" and v1[1][0] == "call" and cn(v1[1][1]) == "core::result::Result::map_err" and v1[1][2] == (fb, ("fn", "multiboot2::util::StringError::MissingNul")):
-            nul_ok = True
-        v2 = N(e2.val)
-        if v2[0] == "call" and cn(v2[1]) == "core::result::Result::map_err" and v2[2][1] == ("fn", "multiboot2::util::StringError::Utf8"):
-            ts = v2[2][0]
-            utf_ok = nul_ok and ts == ("call", "core::ffi::c_str::CStr::to_str", (("try_ok", v1[1]),))
+        FB = ("call", "core::ffi::c_str::CStr::from_bytes_until_nul", (arg(1),))
+        cstr = CH.payload_of(FB, 0)
+        # CStr::to_str(c) is str::from_utf8(c.to_bytes()) (std definition): either spelling
+        TSS = [("call", "core::ffi::c_str::CStr::to_str", (cstr,)),
+               ("call", "core::str::converts::from_utf8", (("call", "core::ffi::c_str::CStr::to_bytes", (cstr,)),))]
+        e_nul = [e for e in ex if e.kind == "Err" and e.variant == "MissingNul"]
+        e_utf = [e for e in ex if e.kind == "Err" and e.variant == "Utf8"]
+        e_ok = [e for e in ex if e.kind == "Ok"]
+        if len(e_nul) == 1 and len(e_utf) == 1 and len(e_ok) == 1:
+            pn = N(e_nul[0].payload)
+            nul_ok = CH.own_is_variant(e_nul[0], FB, 1) and pn[0] == "aggr" and pn[2] == (CH.payload_of(FB, 1),) and len(e_nul[0].facts) == 1
+            for TS in TSS:
+                pu = N(e_utf[0].payload)
+                if CH.own_is_variant(e_utf[0], TS, 1) and pu[0] == "aggr" and pu[2] == (CH.payload_of(TS, 1),) and CH.guarded_by_variant(e_utf[0].facts, FB, 0) and \
+                        CH.own_is_variant(e_ok[0], TS, 0) and N(e_ok[0].payload) == CH.payload_of(TS, 0):
+                    utf_ok = nul_ok
     ctx.check(ok and nul_ok, "S3", "missing-nul", "parse_slice_as_string(b) first applies CStr::from_bytes_until_nul(b) and maps its error to StringError::MissingNul (early return)",
               A.site(), how="exit #1 = from_bytes_until_nul(arg).map_err(MissingNul)?", why=str([G.show(e.val)[:160] for e in ex]))
     ctx.check(ok and utf_ok, "S3", "utf8", "then returns .to_str() of that CStr with the error mapped to StringError::Utf8 - nothing else is read", A.site(),
